@@ -222,10 +222,15 @@ package main
 //@   requires ctx != nil && conn != nil && conn.ctx != nil && req != nil
 //@   requires held(multi.mu) == 0 && validEpochSet(multi) && multi.options != nil
 //@   noframe
-//@   # C07 (response order): response[numBefore ...] is filled block by block in the order the epochs of foundTransactions are
-//@   # visited, so the entries are listed newest epoch first iff every epoch visited so far is newer than every epoch still to
-//@   # come. Under the map-range model (arbitrary visiting order) this is NOT inductive: defect, see replay/manual/ct-c07.
-//@   loop 0 invariant forall a, b uint64 :: visited0(a) && has(foundTransactions, b) && !visited0(b) ==> a > b
+//@   # C07 (response order): the epochs of foundTransactions are collected into foundEpochs (loop 0: every collected number
+//@   # is a key of the map), sorted descending, and response[numBefore ...] is filled block by block by ranging over THAT list (loop 1):
+//@   # when loop 1 is entered the list is descending and holds only keys of the map (the list is local; that the callees of the
+//@   # loop body leave it alone is not proved: they are noframe). (The pinned code ranged over the Go map
+//@   # itself - arbitrary order; defect fixed in c3cbe09, replay in replay/manual/ct-c07.)
+//@   option sort-members-fwd
+//@   loop 0 invariant forall k int :: 0 <= k && k < len(foundEpochs) ==> has(foundTransactions, foundEpochs[k])
+//@   loop 1 entry forall a, b int :: 0 <= a && a < b && b < len(foundEpochs) ==> foundEpochs[a] >= foundEpochs[b]
+//@   loop 1 entry forall k int :: 0 <= k && k < len(foundEpochs) ==> has(foundTransactions, foundEpochs[k])
 
 //@ func (*MultiEpoch) handleGetBlockTime
 //@   requires ctx != nil && conn != nil && conn.ctx != nil && req != nil
